@@ -18,6 +18,7 @@ from vpm.labels import enc, state_labels, action_labels
 from vpm.ref.mdp import closure
 
 GAMMAS = [0.3, 0.5, 0.8, 0.9, 0.95, 0.99]
+NONE_ACTION_PIDS = ("C01", "C02", "C03", "C04", "C06", "C16")
 
 
 def normalise_absorbing_successors(spec):
@@ -43,11 +44,11 @@ def normalise_absorbing_successors(spec):
 
 @st.composite
 def mdp_specs(draw, flavour="discounted", min_states=1, max_states=5, max_actions=3,
-              schemes=("int", "str"), allow_explicit=True, normalise=True,
+              schemes=("int", "str", "int_gap"), allow_explicit=True, normalise=True,
               multi_p0=True, zero_weights=True, reward_lo=None, reward_hi=None,
               p0_zero_entries=False, uniform_actions=False, gammas=None, max_out=3,
               absorbing_kinds=("n", "n", "n", "n", "n", "n", "abs", "imp"), connect=True, extreme=False,
-              reward_values=None):
+              reward_values=None, none_action=None):
     sizes = list(range(min_states, max_states + 1))
     n = draw(st.sampled_from(sizes + sizes[len(sizes) // 2:]))
     m = draw(st.sampled_from(list(range(1, max_actions + 1)) + list(range(2, max_actions + 1))))
@@ -131,6 +132,13 @@ def mdp_specs(draw, flavour="discounted", min_states=1, max_states=5, max_action
     perm_a = draw(st.permutations(list(range(m))))
     sl = state_labels(scheme_s, n)
     al = action_labels(scheme_a, m)
+    if none_action is None:
+        # None is a hashable, legal action label for the planners; roll-out based components use None themselves for
+        # "no action" (the final step of a trajectory), so there it is outside the input domain
+        import os
+        none_action = os.environ.get("VPM_PID") in NONE_ACTION_PIDS
+    if none_action and draw(st.integers(0, 5)) == 0:
+        al[draw(st.integers(0, m - 1))] = None      # None is a hashable, legal action label ("no-op")
     spec = {
         "flavour": flavour, "n": n, "m": m, "gamma": gamma,
         "slabels": [enc(sl[perm_s[i]]) for i in range(n)],
@@ -179,6 +187,109 @@ def policy_specs(draw, spec, kinds=("stochastic", "stochastic", "deterministic",
             row = [[a, w] for a, w in zip(acts, base)]
         else:
             ws = [draw(st.integers(0, 5)) for _ in acts]
+            if not any(ws):
+                ws[0] = 1
+            row = [[a, w] for a, w in zip(acts, ws)]
+        pol.append(row)
+    return pol
+
+
+# ---------------------------------------------------------------------------------------------
+# large instances: Hypothesis draws a handful of parameters, a PRNG seeded by one of them expands them into a full
+# spec (the spec that is stored / replayed is the expanded JSON, so replay needs neither Hypothesis nor the PRNG)
+# ---------------------------------------------------------------------------------------------
+def _expand_large(params):
+    import random
+    flavour, n, m, out, gamma, kind, seed = params
+    r = random.Random(seed)
+    proper = flavour in ("ssp", "dproper")
+    nabs = 1 if proper else r.choice([0, 0, 1, 2])
+    absorbing = [0] * n
+    for s in r.sample(range(n), nabs):
+        absorbing[s] = 1
+    goal = [s for s in range(n) if absorbing[s]]
+    order = list(range(n))
+    r.shuffle(order)
+    if proper:
+        # every action moves, with positive probability, to a state later in `order` (the goal is last): all policies proper
+        order.remove(goal[0])
+        order.append(goal[0])
+    pos = {s: i for i, s in enumerate(order)}
+    trans = []
+    for s in range(n):
+        acts = list(range(m)) if kind != "ragged" else sorted(r.sample(range(m), r.randint(1, m)))
+        row = []
+        for a in acts:
+            k = r.randint(1, out)
+            if kind == "dense":
+                k = max(k, min(n, out))
+            tg = r.sample(range(n), min(k, n))
+            if proper and not absorbing[s]:
+                later = order[pos[s] + 1:]
+                if not any(pos[t] > pos[s] for t in tg):
+                    tg[0] = r.choice(later)
+            if a == acts[0] and not absorbing[s] and pos[s] + 1 < n and order[pos[s] + 1] not in tg:
+                tg.append(order[pos[s] + 1])      # a chain through `order` keeps (almost) everything reachable
+            if flavour == "negative":
+                rew = lambda: r.choice([0, 0, -1, -1, -2, -3])
+            elif proper:
+                rew = lambda: r.choice([-1, -1, -2, -3, 0])
+            else:
+                rew = lambda: r.choice([-3, -2, -1, 0, 1, 2, 3])
+            outs = [[t, r.choice([1, 1, 1, 2, 3]), rew()] for t in tg]
+            if absorbing[s]:
+                outs = [[s, 1, 0]]
+            row.append([a, outs])
+        trans.append(row)
+    k0 = r.choice([1, 1, 2, 3])
+    p0 = [[s, r.choice([1, 1, 2])] for s in r.sample(range(n), min(k0, n))]
+    if order[0] not in [s for s, _ in p0]:
+        p0.append([order[0], 1])
+    spec = {"n": n, "m": m, "slabels": [enc(x) for x in state_labels_large(n, r)], "alabels": [enc(x) for x in range(m)],
+            "trans": trans, "absorbing": absorbing, "p0": p0, "gamma": gamma, "explicit_states": None,
+            "explicit_actions": None, "flavour": flavour, "large": True}
+    if flavour in ("negative", "discounted", "average") and r.random() < 0.5:
+        # the arrays cover every state (explicit list): unreachable parts included
+        perm = list(range(n))
+        r.shuffle(perm)
+        spec["explicit_states"] = perm
+    normalise_absorbing_successors(spec)
+    return spec
+
+
+def state_labels_large(n, r):
+    kind = r.choice(["int", "str", "tuple"])
+    if kind == "int":
+        return list(range(n))
+    if kind == "str":
+        return [f"s{i}" for i in range(n)]
+    w = max(2, int(n ** 0.5))
+    return [(i // w, i % w) for i in range(n)]
+
+
+def large_mdp_specs(flavour="discounted", min_states=16, max_states=45, max_actions=3, max_out=4, gammas=None):
+    """MDPs with tens of states (sparse / dense / ragged action sets); proper flavours ('ssp', 'dproper') are built on a
+    random order so that every policy reaches the single goal."""
+    g = st.just(1.0) if flavour in ("ssp", "negative", "average") else st.sampled_from(gammas or [0.5, 0.9, 0.95, 0.99])
+    return st.tuples(st.just(flavour), st.integers(min_states, max_states), st.integers(1, max_actions), st.integers(1, max_out),
+                     g, st.sampled_from(["sparse", "sparse", "dense", "ragged"]), st.integers(0, 2 ** 40)).map(_expand_large)
+
+
+def large_policy(spec, seed):
+    """a stochastic policy spec for a large MDP, expanded from a seed (uniform / one-hot / weighted rows)"""
+    import random
+    r = random.Random(seed)
+    style = r.choice(["uniform", "mixed", "mixed", "deterministic"])
+    pol = []
+    for s in range(spec["n"]):
+        acts = [a for a, _ in spec["trans"][s]]
+        if style == "uniform":
+            row = [[a, 1] for a in acts]
+        elif style == "deterministic" or len(acts) == 1:
+            c = r.randrange(len(acts))
+            row = [[a, 1 if i == c else 0] for i, a in enumerate(acts)]
+        else:
+            ws = [r.choice([0, 1, 1, 2, 5]) for _ in acts]
             if not any(ws):
                 ws[0] = 1
             row = [[a, w] for a, w in zip(acts, ws)]
